@@ -63,10 +63,10 @@ fn replay_file(path: &str) -> i32 {
         }
     };
     match j["scenario"].as_str().unwrap_or("") {
-        "corrupt" => harness::replay(&scen_corrupt::Corrupt, &j),
-        "batch" => harness::replay(&scen_batch::Batch, &j),
-        "chain" => harness::replay(&scen_chain::Chain, &j),
-        "limits" => harness::replay(&scen_limits::Limits::new(), &j),
+        "corrupt" => harness::replay(scen_corrupt::Corrupt, &j),
+        "batch" => harness::replay(scen_batch::Batch, &j),
+        "chain" => harness::replay(scen_chain::Chain, &j),
+        "limits" => harness::replay(scen_limits::Limits::new(), &j),
         s => {
             eprintln!("HARNESS-ERROR: unknown scenario {s:?} in {path}");
             2
